@@ -106,7 +106,49 @@ func errorPropagates(fn *ssa.Function, call *ssa.Call, handlers ...string) (bool
 	if !used {
 		return false, "the error result is bound but never returned nor tested against nil"
 	}
-	return true, "the error is returned, or tested and every non-nil path ends in a failing return"
+	// the test comes before the value can be lost: from the call, no path reaches the same call
+	// again (a loop overwriting the error) or a return that does not carry it, without first
+	// passing a nil test of this error
+	isE := func(v ssa.Value) bool {
+		for _, e := range vals {
+			if engine.Unwrap(v) == e || phiOf(v, e) {
+				return true
+			}
+		}
+		return false
+	}
+	tested := func(in ssa.Instruction) bool {
+		switch x := in.(type) {
+		case *ssa.If:
+			c := x.Cond
+			for {
+				u, ok := c.(*ssa.UnOp)
+				if !ok || u.Op != token.NOT {
+					break
+				}
+				c = u.X
+			}
+			if bo, ok := c.(*ssa.BinOp); ok && (bo.Op == token.EQL || bo.Op == token.NEQ) {
+				return (isE(bo.X) && engine.IsNilConst(bo.Y)) || (isE(bo.Y) && engine.IsNilConst(bo.X))
+			}
+		case *ssa.Return:
+			return ferr >= 0 && ferr < len(x.Results) && isE(x.Results[ferr])
+		}
+		return false
+	}
+	if lost := engine.Reach(fn, call, nil, tested, func(in ssa.Instruction) bool {
+		if in == ssa.Instruction(call) {
+			return true
+		}
+		_, isR := in.(*ssa.Return)
+		return isR
+	}); lost != nil {
+		if lost == ssa.Instruction(call) {
+			return false, "the call is executed again (loop) before its error was tested: an earlier failure is overwritten by a later success"
+		}
+		return false, "a return is reachable after the call without the error having been tested (" + lost.String() + ")"
+	}
+	return true, "the error is returned, or tested before it can be overwritten, and every non-nil path ends in a failing return"
 }
 
 func phiOf(v ssa.Value, e ssa.Value) bool {
